@@ -910,7 +910,7 @@ Print Assumptions C12_flatten_sections_complete.
     references resolve, [build()] of every flattened node succeeds) *)
 Theorem C12_padding_safe_flat : forall dw c b use_long w,
   cmd_ok dw c -> flat_cond c = true -> h_build c = Some b -> flat_tree_ok dw b ->
-  usage_ok (hc_height c + 2) c ->
+  usage_ok tree_fuel c ->
   write_help_flat dw c use_long w <> None.
 Proof. exact padding_safe_flat. Qed.
 Print Assumptions C12_padding_safe_flat.
@@ -927,7 +927,7 @@ Print Assumptions C12_padding_bounded_flat.
     `sb` and hidden `h2`), hidden `h1`, `sq` (flags `--lq` / `-q`); [fx_one]: the same with `sa` not flattened *)
 Theorem C12_flatten_satisfiable :
   cmd_ok len fx_c /\ refs_ok fx_c = true /\ flat_cond fx_c = true /\ h_build fx_c = Some fx_b
-  /\ flat_tree_ok len fx_b /\ usage_ok (hc_height fx_c + 2) fx_c /\ flat_distinct fx_b.
+  /\ flat_tree_ok len fx_b /\ usage_ok tree_fuel fx_c /\ flat_distinct fx_b.
 Proof. exact fx_flat_hyps. Qed.
 Print Assumptions C12_flatten_satisfiable.
 
